@@ -155,7 +155,11 @@ impl<'db> ApplyOptimization<'db> for [OptimizationPhase<'db>] {
         );
 
         for phase in self {
+            #[cfg(feature = "verif")]
+            let verif_before = lowered.clone();
             phase.apply(db, function, lowered)?;
+            #[cfg(feature = "verif")]
+            verif_after_phase(db, function, phase, &verif_before, lowered);
             let fmt = crate::fmt::LoweredFormatter::new(db, &lowered.variables);
             tracing::trace!(
                 target: "optimization_dump",
@@ -260,4 +264,33 @@ pub fn final_optimization_strategy<'db>(db: &'db dyn Database) -> OptimizationSt
         ]),
     }
     .intern(db)
+}
+
+/// Verification hook (H2): after every optimization phase, runs the lowering validator on the
+/// result and records whether the phase changed the function.
+#[cfg(feature = "verif")]
+fn verif_after_phase<'db>(
+    db: &'db dyn Database,
+    function: ConcreteFunctionWithBodyId<'db>,
+    phase: &OptimizationPhase<'db>,
+    before: &Lowered<'db>,
+    after: &Lowered<'db>,
+) {
+    use cairo_lang_utils::verif;
+    if matches!(phase, OptimizationPhase::SubStrategy { .. }) {
+        return;
+    }
+    let name = format!("{phase:?}");
+    let name = name.split([' ', '{', '(']).next().unwrap_or("").to_string();
+    verif::count("lowering.phase.applied", 1);
+    if before != after {
+        verif::count(&format!("lowering.phase.changed.{name}"), 1);
+    }
+    if let Err(err) = validate(after) {
+        verif::count("lowering.phase.invalid", 1);
+        verif::event(
+            "lowering.phase.invalid",
+            format!("{name} | {} | {}", function.full_path(db), err.to_message()),
+        );
+    }
 }
